@@ -82,6 +82,8 @@ pub fn documents(tier: Tier) -> Vec<A> {
     out.push(A::doc(vec![A::comment("<a>&amp;]]>"), A::el("", "a").child(A::comment("- -\n<")).child(A::pi("pi", Some("<?x? >&\n"))).child(A::text("x")), A::pi("pi", Some("]]>"))]));
     // 3d. characters that windows-1252 keeps in 0x80..=0x9F (euro sign, curly quotes, dashes, trade mark)
     out.push(A::doc(vec![A::el("", "a").attr("", "k", "\u{20ac}\u{201c}\u{2122}").child(A::text("\u{2013}\u{e9}\u{20ac}x\u{178}"))]));
+    // 3e. namespace URIs with white space (attribute-value normalisation applies to declarations too)
+    out.push(A::doc(vec![A::el("u v", "a").decl("p", "u v").decl("", "x  y").attr("u v", "k", "1").child(A::el("x  y", "b"))]));
     // 4. xml:id and xml:space
     out.push(A::doc(vec![A::el("", "a").attr(XML_NS, "id", "i").child(A::el("", "b").attr(XML_NS, "id", "j k").attr(XML_NS, "space", "preserve"))]));
     out.push(A::doc(vec![A::el("", "a").attr("", "id", " x  y ").attr(XML_NS, "id", "a b")]));
